@@ -239,7 +239,7 @@ func c13Refcount(p *chk.Prog, r *chk.Report) {
 		for _, rs := range d.RangeLoops(advs) {
 			cur := rangeVal(d, rs)
 			dec := isIncDec(d, "RECV.ipRefcnt[C.ip.String()]", token.DEC, chk.H("C", cur))
-			ok = !loopSkipsWithout(g, rs, dec, chk.NoGuard) && !loopHasBreak(g, rs) && len(g.Find(dec)) == 1
+			ok = !loopSkipsWithout(g, rs, dec, chk.NoGuard) && !loopLeavesEarly(d, g, rs) && len(g.Find(dec)) == 1
 			for _, c := range g.FindPat("CL.Unwatch(C.ip)", chk.H("C", cur)) {
 				x.Check("DeleteBalancer:unwatch-only-last-user", c.Pos(), g.Dominated(c, g.GPat(false, "RECV.ipRefcnt[C.ip.String()] > 0", chk.H("C", cur))), "", "the NDP group is left while another service still uses the address")
 			}
